@@ -14,6 +14,12 @@ run_demo() {  # prints PASS or FAIL
     timeout 120 $wt/_build/opensmt $s > $sd/out_$b.txt 2>&1
     diff -q $sd/out_$b.txt $exp >> $log 2>&1 || ok=0
   done
+  if [ -f $sd/compare.sh ] && [ -f $sd/demo.smt2 ]; then
+    OSMT=$wt/_build/opensmt bash $sd/compare.sh $sd/demo.smt2 >> $log 2>&1 || ok=0
+  fi
+  if [ -f $sd/run_demo.sh ]; then
+    bash $sd/run_demo.sh $wt/_build/opensmt >> $log 2>&1 || ok=0
+  fi
   [ $ok = 1 ] && echo PASS || echo FAIL
 }
 cd $wt && git checkout -q -- . && cmake --build _build -j8 >> $log 2>&1
